@@ -37,6 +37,7 @@ type Obligation struct {
 	Model    string
 	Output   string
 	Bounded  bool
+	Retried  bool // needed the second (quiet, longer) solving pass
 }
 
 type Enc struct {
@@ -72,6 +73,7 @@ type Enc struct {
 	resultTypes []types.Type
 	pendingCopyOut []copyOut
 	curCall *ssa.Call
+	defined map[string]int
 	lemmaMode bool // proving a `derives` clause: no body, no frame obligations
 }
 
@@ -114,6 +116,15 @@ func (e *Enc) useMem(m MemRef) {
 }
 
 func (e *Enc) define(name, sort, val string) string {
+	if e.defined == nil {
+		e.defined = map[string]int{}
+	}
+	if n := e.defined[name]; n > 0 { // a duplicated block defines its values again: keep names unique
+		e.defined[name] = n + 1
+		name = fmt.Sprintf("%s_d%d", name, n)
+	} else {
+		e.defined[name] = 1
+	}
 	e.body = append(e.body, fmt.Sprintf("(define-fun %s () %s %s)", name, sort, val))
 	return name
 }
@@ -467,6 +478,31 @@ func (e *Enc) block(b *ssa.BasicBlock) {
 		ins = append(ins, inEdge{p, c, i})
 	}
 	rname := fmt.Sprintf("r_%d", b.Index)
+	// tail duplication: a block that only returns is evaluated once per incoming edge, on that
+	// edge's own state -- postconditions then never see ite-merged memories
+	if _, isRet := b.Instrs[len(b.Instrs)-1].(*ssa.Return); isRet && len(ins) > 1 && e.loops[b] == nil && len(b.Succs) == 0 {
+		var cs []string
+		for _, in := range ins {
+			cs = append(cs, in.cond)
+		}
+		e.define(rname, "Bool", or(cs...))
+		e.reach[b] = rname
+		for k, in := range ins {
+			e.cur = e.out[in.p].clone()
+			e.curReach = e.define(fmt.Sprintf("r_%d_e%d", b.Index, k), "Bool", in.cond)
+			for _, instr := range b.Instrs {
+				if phi, ok := instr.(*ssa.Phi); ok {
+					v := e.term(phi.Edges[in.idx])
+					e.vals[phi] = Term{v.S, v.Sort, phi.Type()}
+					continue
+				}
+				e.instr(instr)
+				e.compact()
+			}
+		}
+		e.out[b] = e.cur
+		return
+	}
 	if b.Index == 0 {
 		e.define(rname, "Bool", "true")
 		e.cur = e.cur.clone()
@@ -888,8 +924,7 @@ func (e *Enc) addr(v ssa.Value) *Addr {
 
 func (e *Enc) def(v ssa.Value, s string) Term {
 	t := mkTerm(e.w, "", v.Type())
-	name := "v_" + sanitize(v.Name())
-	e.define(name, t.Sort, s)
+	name := e.define("v_"+sanitize(v.Name()), t.Sort, s)
 	t.S = name
 	e.vals[v] = t
 	return t
@@ -1854,7 +1889,12 @@ func (e *Enc) compact() {
 			if !ok {
 				continue
 			}
-			e.cur.mem[k] = e.define(e.fresh(k+"_s"), m.Sort, t)
+			nn := e.define(e.fresh(k+"_s"), m.Sort, t)
+			e.cur.mem[k] = nn
+			if r, ok := e.cur.inner[k]; ok && r.memTerm == t {
+				r.memTerm = nn
+				e.cur.inner[k] = r
+			}
 		}
 	}
 }
